@@ -121,6 +121,7 @@ func c09PairOracle(c c09PairCase) ev.Verdict {
 	if err != nil {
 		return fail("encode-error:"+msg, "PlainNasEncode: %v", err)
 	}
+	encSnap := append([]byte{}, enc...)
 	who, at := culprit(sp, ref, enc)
 	p, err := b.def.Parse(enc)
 	if err != nil {
@@ -174,6 +175,12 @@ func c09PairOracle(c c09PairCase) ev.Verdict {
 	}
 	if d := diffMsg(m, dec); d != "" {
 		return fail("layout:"+msg+"/"+fieldOfPath(d, msg), "decoding the table encoding %s does not give the expected struct: %s", short(ref), d)
+	}
+	// the message keeps the layout it was given: the bytes are still held (not yet sent) while the codec is used for
+	// other messages
+	interfere()
+	if !bytes.Equal(enc, encSnap) {
+		return plainFail("retained:encoding-overwritten-by-a-later-call", "the bytes PlainNasEncode returned (%s) read %s after the codec was used for other messages", short(encSnap), short(enc))
 	}
 	return vd
 }
